@@ -270,6 +270,53 @@ pub fn split_kind(k: &str) -> (&str, usize) {
     }
 }
 
+/// Hmac built over a digest object that has a past and was brought back to the fresh state by a public reset:
+///   mode "reset":   input(pre) ; Digest::reset()
+///   mode "result":  input(pre) ; result() ; Digest::reset()
+///   mode "b2key":   (BLAKE2 only) new_keyed(outlen, pre) ; inherent reset() (back to the unkeyed hash)
+///   mode "b2rekey": (BLAKE2 only) new(outlen) ; reset_with_key(pre) ; input(pre) ; inherent reset()
+fn new_hmac_used(kind: &str, key: &[u8], pre: &[u8], mode: &str) -> Result<Box<dyn LMac>, String> {
+    let (k, outlen) = split_kind(kind);
+    match (k, mode) {
+        ("blake2b", "b2key") => {
+            let mut d = cryptoxide::blake2b::Blake2b::new_keyed(outlen, pre);
+            d.reset();
+            return Ok(Box::new(Hmac::new(d, key)));
+        }
+        ("blake2s", "b2key") => {
+            let mut d = cryptoxide::blake2s::Blake2s::new_keyed(outlen, pre);
+            d.reset();
+            return Ok(Box::new(Hmac::new(d, key)));
+        }
+        ("blake2b", "b2rekey") => {
+            let mut d = cryptoxide::blake2b::Blake2b::new(outlen);
+            d.reset_with_key(pre);
+            g_input(&mut d, pre);
+            d.reset();
+            return Ok(Box::new(Hmac::new(d, key)));
+        }
+        ("blake2s", "b2rekey") => {
+            let mut d = cryptoxide::blake2s::Blake2s::new(outlen);
+            d.reset_with_key(pre);
+            g_input(&mut d, pre);
+            d.reset();
+            return Ok(Box::new(Hmac::new(d, key)));
+        }
+        (_, "b2key") | (_, "b2rekey") => return Err("bad-mode-for-kind".into()),
+        _ => {}
+    }
+    Ok(with_digest_kind!(k, outlen, d => {
+        let mut d = d;
+        g_input(&mut d, pre);
+        if mode == "result" {
+            let mut tmp = vec![0u8; Digest::output_bytes(&d)];
+            g_result(&mut d, &mut tmp);
+        }
+        g_reset(&mut d);
+        Box::new(Hmac::new(d, key)) as Box<dyn LMac>
+    }))
+}
+
 fn new_hmac(kind: &str, key: &[u8]) -> Result<Box<dyn LMac>, String> {
     let (k, outlen) = split_kind(kind);
     Ok(with_digest_kind!(k, outlen, d => Box::new(Hmac::new(d, key)) as Box<dyn LMac>))
@@ -406,6 +453,13 @@ pub fn dispatch(m: &mut Machine, name: &str, args: &[&str]) -> Option<R> {
                     need(args, 4)?;
                     let k = arg_bytes(args[3])?;
                     new_hmac(args[2], &k)?
+                }
+                // mnew <slot> hmac_used <digest> <key> <pre bytes> <mode>
+                "hmac_used" => {
+                    need(args, 6)?;
+                    let k = arg_bytes(args[3])?;
+                    let pre = arg_bytes(args[4])?;
+                    new_hmac_used(args[2], &k, &pre, args[5])?
                 }
                 "poly1305" => {
                     let k = arg_bytes(args[2])?;
